@@ -234,5 +234,19 @@ kf("C16", "C16-user-function-named-isnan", "a user function named isnan (not a W
 kf("C17", "C17-spirv-invariant-dropped", "the SPIR-V backend never emits the Invariant decoration: `@builtin(position) @invariant` outputs (bare or struct members) carry only BuiltIn Position",
    ["C17|spirv1.1:invariant|*", "C17|spirv1.4:invariant|*"])
 
+# ---------------------------------------------------------------- C06 (compile-time evaluation); exact key lists in kf_c06_keys.json
+_c06 = json.load(open("kf_c06_keys.json"))
+kf("C06", "C06-module-const-evaluator-incomplete", "the module-scope constant evaluator rejects valid constant expressions: builtin calls (select, min, max, clamp, abs, dot, ...), boolean operators, several operators on vectors, unary operators on some operand forms (\"unsupported call expression\", \"expected integer literal, got BoolLiteral\", ...)", _c06["modconst-rejected"])
+kf("C06", "C06-module-const-wrong-value", "module-scope constants are folded to wrong values: vector comparisons (==, != ...) and bitwise/logical operators on vectors and bools yield results of another lane or all-false, shifts of vectors by vectors use the wrong lane", _c06["modconst-wrong"])
+kf("C06", "C06-named-constant-operands", "expressions over named module constants (`const a = ...; a op b`) are folded or emitted wrongly: matrix sums/products and mix() over named constants give zero or malformed SPIR-V, integer results differ from run-time evaluation", _c06["named"])
+kf("C06", "C06-division-by-zero-accepted", "integer / and % by zero in a constant expression is accepted for vector operands in every context (and for module constants): WGSL makes it a shader-creation error", _c06["div0"])
+kf("C06", "C06-const-assert-not-evaluated", "const_assert silently accepts a false assertion whenever its expression is outside what the assertion evaluator supports (many operators/builtins), and rejects some true assertions because the evaluator computes a wrong value", _c06["const_assert"])
+kf("C06", "C06-array-size-not-evaluated", "an array size given by a builtin call or bit operation (`array<u32, (countOneBits(1u))>`) is not evaluated: the lowered type has no constant size", _c06["array-size"])
+kf("C06", "C06-workgroup-size-not-evaluated", "@workgroup_size(E) for E outside literals/simple identifiers (`7u / 1u`, `min(2i, 9i)`, `0u | 7u`) silently becomes 1", _c06["workgroup_size"])
+kf("C06", "C06-switch-selector-unsupported", "switch case selectors that are constant expressions with builtin calls are rejected (\"unsupported function in constant expression\")", _c06["switch"])
+kf("C06", "C06-matrix-scalar-constructor", "matCxR<f32>(scalars...) and abstract-literal vector constructors stored directly produce malformed SPIR-V (a vector constructed from all matrix scalars; store type mismatch)", _c06["spirv-constructor"])
+kf("C06", "C06-extractBits-abstract-literal", "extractBits on a bare negative literal is folded without sign extension (the abstract literal is treated as unsigned)", _c06["fold-other"])
+kf("C06", "C06-compile-time-context-syntax", "`const_assert (a + b) == c;` (assertion starting with a parenthesis) and `array<u32, 1u | 2u>` (bit-or in a template argument) are rejected by the parser", _c06["syntax"])
+
 json.dump(K, open("known_findings.json", "w"), indent=1)
 print(len(K), "entries")
